@@ -62,12 +62,17 @@ fn k_scan_edges_2() { scan_edges_contract(2); }
 #[kani::proof]
 #[kani::unwind(12)]
 fn k_scan_edges_1() { scan_edges_contract(if kani::any() { 1 } else { 0 }); }
+// @ob id=K.scan_edges_4 props=C01 kind=bounded:edges=4 tier=thorough timeout=3000 fns=Rasterizer::scan_edges
+// @+ desc="scan_edges, same contract, lists of exactly 4 edges (self-intersecting / nested shapes: winding sums up to ±4)"
+#[kani::proof]
+#[kani::unwind(12)]
+fn k_scan_edges_4() { scan_edges_contract(4); }
 fn scan_edges_contract(n: usize) {
     let mut r = Rasterizer::new(2, 2); // width = 8 quarter pixels
-    let xs: [i32; 3] = kani::any();
-    let ws: [bool; 3] = kani::any();
-    kani::assume(xs[0] >= -(40 << 14) && xs[2] <= (40 << 14) && xs[0] <= xs[1] && xs[1] <= xs[2]);
-    let mut edges = [mk_edge(xs[0], if ws[0] { 1 } else { -1 }), mk_edge(xs[1], if ws[1] { 1 } else { -1 }), mk_edge(xs[2], if ws[2] { 1 } else { -1 })];
+    let xs: [i32; 4] = kani::any();
+    let ws: [bool; 4] = kani::any();
+    kani::assume(xs[0] >= -(40 << 14) && xs[3] <= (40 << 14) && xs[0] <= xs[1] && xs[1] <= xs[2] && xs[2] <= xs[3]);
+    let mut edges = [mk_edge(xs[0], if ws[0] { 1 } else { -1 }), mk_edge(xs[1], if ws[1] { 1 } else { -1 }), mk_edge(xs[2], if ws[2] { 1 } else { -1 }), mk_edge(xs[3], if ws[3] { 1 } else { -1 })];
     r.active_edges = link(&mut edges, n);
     r.cur_y = kani::any();
     let cy = r.cur_y;
@@ -82,7 +87,7 @@ fn scan_edges_contract(n: usize) {
     let mut started = false; // left-of-surface edges consumed
     let mut stop = false;
     let mut i = 0;
-    while i < 3 {
+    while i < 4 {
         if i < n && !stop {
             let w = if ws[i] { 1 } else { -1 };
             if !started && xs[i] < 0 {
@@ -98,7 +103,7 @@ fn scan_edges_contract(n: usize) {
     }
     assert!(rec.n == en, "number of spans");
     let mut k = 0;
-    while k < 3 {
+    while k < 4 {
         if k < en {
             assert!(rec.spans[k] == exp[k], "span = maximal inside run, ends rounded to the nearest quarter pixel");
             assert!(rec.spans[k].1 <= rec.spans[k].2, "x1 <= x2");
